@@ -1,5 +1,5 @@
 """Property -> rules mapping, floors, level texts."""
-from .rules import termination, streams, decoders, layouts, flow, names, pairing, tables, cue, isolation
+from .rules import termination, streams, decoders, layouts, flow, names, pairing, tables, cue, isolation, filters
 
 RULES = {}
 FLOORS = {}
@@ -53,6 +53,9 @@ for _f, _n in (("Q1", 20), ("Q2", 12), ("Q3", 4), ("Q4", 3), ("C1", 15), ("C2", 
 for _f, _n in (("I1", 12), ("I2", 6), ("I3", 3), ("O1", 6), ("R1", 1)):
     reg(_f, getattr(isolation, "rule_" + _f), _n)
 
+for _f, _n in (("F1", 3), ("F2", 3), ("F3", 3), ("F4", 2), ("F5", 10), ("F6", 15)):
+    reg(_f, getattr(filters, "rule_" + _f), _n)
+
 COMMON_ASSUMPTIONS = [
     "static analysis of /repo's source only: the package is never imported or executed by the check",
     "the `construct` and `numpy` libraries behave as documented (Pointer seeks absolutely, Prefixed back-patches its length, Struct parses fields in order)",
@@ -82,6 +85,6 @@ PROPS = {
     "C16": _p(["I2", "I3", "R1", "N2", "N7", "S6", "S8", "N5"], "tmp"),
     "C17": _p(["Q1", "Q2", "Q3", "Q4", "T1"], "tmp"),
     "C18": _p(["B1", "B2", "B3"], "tmp"),
-    "C19": _p(["T2"], "tmp"),
+    "C19": _p(["F1", "F2", "F3", "F4", "F5", "F6"], "tmp"),
     "C20": _p(["L1i", "L1ri", "L2", "L6", "T4"], "tmp"),
 }
